@@ -1759,6 +1759,11 @@ def carried_state_policy(fnode):
                 g = cache[("g", fn)]
                 if g is not None and _cfg.loop_carried_names(g, loop):
                     r = "twice"
+        elif isinstance(loop, ast.While):
+            # a while loop runs on state its body changes: two rounds, so
+            # that what the first leaves behind (an accumulator, the rest of
+            # the input) meets the second
+            r = "twice"
         cache[loop] = r
         return r
     return policy
